@@ -242,6 +242,12 @@ func (s *Sim) adversarialMint() {
 		s.NewMintQuote(hugeQuoteAmounts[s.Rng.Intn(len(hugeQuoteAmounts))], false)
 	case 0: // unpaid quote
 		if q := s.NewMintQuote(1+uint64(s.Rng.Intn(500)), false); q != nil {
+			if s.E.LapseInvoice(q.Hash) {
+				// through an adapter: the node lets the invoice lapse (expired / cancelled); still unpaid
+				s.logf("invoice of %s lapses unpaid", q.Id[:8])
+				s.E.MintQuoteState(q.Id)
+				s.done("lapse")
+			}
 			s.Mint(q, "exact")
 		}
 	case 1: // already issued quote, other outputs
@@ -385,6 +391,35 @@ func (s *Sim) NewMppMeltQuote(msat, partMsat uint64) *MeltQ {
 func (s *Sim) Summary() string {
 	return fmt.Sprintf("ops=%d coins=%d sigs=%d mintq=%d meltq=%d stats=%v", s.NOps, len(s.Coins), len(s.Sigs), len(s.MintQs), len(s.MeltQs), s.Stats)
 }
+
+// DirectedAmbiguousPolls: a melt whose payment stays in flight, n state polls whose status lookup ends
+// in an error (through an adapter: every flavour of error its node produces, in turn), then Lightning
+// finishes, a last poll, and an attempt to swap the melt's inputs. The oracle is the model's as ever.
+func (s *Sim) DirectedAmbiguousPolls(n int, success bool) {
+	q := s.NewMeltQuote(40_000)
+	if q == nil {
+		return
+	}
+	s.Fund(q.Amount + q.Reserve + 16)
+	in := s.pickFor(q.Amount + q.Reserve)
+	if in == nil {
+		return
+	}
+	if st, _ := s.Melt(q, in, Proofs(in), lnmodel.PayPlan{Answer: lnmodel.APending, Truth: lnmodel.InFlight}, ""); st != "PENDING" {
+		return
+	}
+	for i := 0; i < n; i++ {
+		s.E.Node.ScriptStatus(q.Hash, lnmodel.AError)
+		s.PollMelt(q)
+	}
+	s.W.Resolve(s.E.Name, q.Hash, success)
+	s.logf("ln-resolve %s success=%v (directed, after %d ambiguous lookups)", q.Id[:8], success, n)
+	s.done("ln-resolve")
+	s.AdoptTruth(q)
+	s.PollMelt(q)
+	s.Swap(in, Proofs(in), "exact", "")
+}
+
 
 // DirectedLockedMelt: a key-locked coin (spent with a witness) is melted, the payment stays in flight,
 // then succeeds (or fails) at the node, and the melt is resolved by a quote poll or left to the next
